@@ -125,7 +125,20 @@ namespace nmtools::array
         template <typename output_t>
         constexpr auto operator()(output_t& output) const
         {
-            return this->eval_matmul(output);
+            using lhs_type = meta::remove_cvref_pointer_t<decltype(nmtools::get<0>(get_array(view)))>;
+            constexpr auto lhs_contiguous_axis = meta::contiguous_axis_v<lhs_type>;
+            if constexpr (!meta::is_fail_v<meta::remove_cvref_t<decltype(lhs_contiguous_axis)>>) {
+                if constexpr (lhs_contiguous_axis != -1) {
+                    // eval_matmul reads the rows of lhs linearly: row-major lhs only,
+                    // otherwise use the default (scalar) evaluator
+                    evaluator_t<matmul_type,none_t,resolver_t>{view,None}(output);
+                    return true;
+                } else {
+                    return this->eval_matmul(output);
+                }
+            } else {
+                return this->eval_matmul(output);
+            }
         }
 
         // TODO: provide common base/utility
